@@ -67,7 +67,7 @@ def replay_chunk(args):
         try:
             rnd = random.Random(f"{seed}-{si}")
             m = scen.Mat(sc, base, seed=rnd.random())
-            for d in ("deep", "build", "sys/include", "src", "inc"):
+            for d in ("deep", "build", "sys/include", "src", "src/sub", "inc"):
                 os.makedirs(os.path.join(m.root, d), exist_ok=True)
             os.makedirs(m.extdir, exist_ok=True)
             made = decorate(m, al["links"])
@@ -88,7 +88,7 @@ def replay_chunk(args):
                 return s
 
             def spell_file(fid):
-                return spell(m, al, FILEKEY[fid], rnd)
+                return spell(m, al, FILEKEY[fid], rnd) if fid in FILEKEY else m.paths[fid]
 
             stats["evals"] += 1
             try:
@@ -206,8 +206,12 @@ def run(ctx):
     if not aliases:
         raise core.MachineryError("no alias sets generated")
     scens = runner.sharded_tlc(ctx, "GenScen", C04.CFG.format(profile="sim", shard=0, nshards=1), 16, "GenScen_sim",
-                               timeout=900, simulate=f"num={25 if q else 400}", depth=40, seed=ctx.seed + 41)
+                               timeout=900, simulate=f"num={100 if q else 800}", depth=40, seed=ctx.seed + 41)
     scens = C04.dedup(scens)
+    ctx.cov["scenarios_generated"] = len(scens)
+    # aliasing is judged on scenarios whose every include resolves (so that the canonical twin is warning-free)
+    scens = [sc for sc in scens if scen.well_formed(sc) and not any(r["warns"] for r in sc["res"])
+             and "argv.forced_name_beside_main" not in scen.features(sc)][:(160 if q else 4000)]
     rnd = random.Random(ctx.seed)
     pairs = []
     for i, sc in enumerate(scens):
